@@ -305,7 +305,7 @@ pub fn defs() -> Vec<PropDef> {
         },
         PropDef {
             id: "C14", salt: 14, budget: (1000, 20_000, 100), spec: spec_c14,
-            required: &[("c14.invariant_checks", 1), ("c14.index_updates_with_holders", 1), ("c14.index_updates_without_holders", 1), ("c14.claims_ok", 1), ("c14.claims_to_third_party", 1), ("c14.claims_keeping_a_fraction", 1), ("c14.claims_rejected_below_one_unit", 1), ("c14.updates_one_unit_against_huge_supply", 1), ("c14.updates_huge_reward_against_dust_supply", 1)],
+            required: &[("c14.invariant_checks", 1), ("c14.index_updates_with_holders", 1), ("c14.index_updates_without_holders", 1), ("c14.index_updates_without_holders_with_undistributed_delivery", 1), ("c14.claims_ok", 1), ("c14.claims_to_third_party", 1), ("c14.claims_keeping_a_fraction", 1), ("c14.claims_rejected_below_one_unit", 1), ("c14.updates_one_unit_against_huge_supply", 1), ("c14.updates_huge_reward_against_dust_supply", 1)],
             rule: "reward-contract world (real reward contract + bSei token + hub config; deliveries by bank transfer + UpdateGlobalIndex from the dispatcher address; mint/burn by the hub address); a case is a claim or an index update; distinct = (kind, decade of amount, fraction kept? / decade of supply, third-party recipient?, #holders)",
         },
         PropDef {
